@@ -5,12 +5,12 @@
      C05-F1 4719ff8 (XML reader strips descriptions)      C05-F2 394565c (TSV read without quote processing)
      C05-F3 784517a ('extend here' looked for in the name) C05-F4 8fb8446 (TSV unit class stub)
      C05-F5 4b4f5c6 (XML/TSV readers strip names)          C05-F7 f2636f2 (trees arranged parents-first)
+     C05-F8 b5f4533 (TSV reader ignores the case of the .tsv suffix)
    The model switches fixed / fixed5 select the behaviour before (false) or after (true) these commits; theorems
    named without suffix are stated at the CURRENT mode (true).  Every theorem whose name ends in _refuted, and every
    statement at mode false, is the RECORD of a repaired defect (behaviour before the commit named next to it) or of
    a variant that is NOT the code (labelled so); none of them says the property is false of the implementation.
-   Open findings: C05-F3 rest (nowiki words inside a description), C05-F6 (tab / line feed in a name) and C05-F8
-   (a TSV location named *.TSV; fix proposed, not yet in /repo).
+   Open findings: C05-F3 rest (nowiki words inside a description) and C05-F6 (tab / line feed in a name).
 
    WHAT IS PROVED (all inputs in the stated classes):
      - schema level, MediaWiki tag section of a merged save: decoding the lines written for a list of tag entries
@@ -331,27 +331,38 @@ Print Assumptions C05_tsv_cell_marker_variant_refuted.
 (* TSV SAVE LOCATIONS.  The ten file names the writer (save_dataframes) and the reader (convert_filenames_to_dict)
    derive from a location: they agree for every FOLDER name whatever dots it holds (HED8.3.0, a.b.c, trailing dot) and
    for a name ending in .tsv; tied by the correspondence kind 'tsvloc' and the location names of the end-to-end runs.
-   OPEN FINDING C05-F8 (current code, fixed8 = false): a name ending in .TSV / .Tsv is a file base for the writer
-   and a folder for the reader -- refuted statement below; with the proposed fix-F8 (fixed8 = true) they always agree. *)
+   The current reader (fixed8 = true, since fix commit b5f4533) ignores the letter case of the suffix as the writer
+   always did, so they agree on EVERY location; before that commit (fixed8 = false) a name ending in .TSV / .Tsv was
+   a file base for the writer and a folder for the reader -- the repaired finding C05-F8, kept below as a record. *)
+Theorem C05_tsv_location_files_agree : forall (parent : list str) (name : str),
+  reader_files true parent name = writer_files parent name.
+Proof. exact location_files_agree_fixed. Qed.
+Print Assumptions C05_tsv_location_files_agree.
+
+(* every folder name, whatever dots it holds, names <parent>/<name>/<name>_<Suffix>.tsv for the reader and the writer *)
 Theorem C05_tsv_folder_files_agree : forall (parent : list str) (name : str),
-  is_dot_tsv_ci name = false -> reader_files false parent name = writer_files parent name.
-Proof. exact folder_files_agree. Qed.
+  is_dot_tsv_ci name = false ->
+  reader_files true parent name = map (tsv_file (parent ++ [name]) name) df_suffixes
+  /\ writer_files parent name = map (tsv_file (parent ++ [name]) name) df_suffixes.
+Proof. exact folder_files_current. Qed.
 Print Assumptions C05_tsv_folder_files_agree.
 
-Theorem C05_tsv_location_files_agree : forall (parent : list str) (name : str),
+(* RECORDS (behaviour before fix commit b5f4533, fixed8 = false; not about the current code): the reader that compared
+   the suffix exactly agreed with the writer only when the name had no capital-letter .tsv suffix, and disagreed on x.TSV *)
+Theorem C05_tsv_location_files_agree_before_b5f4533 : forall (parent : list str) (name : str),
   is_dot_tsv_ci name = is_dot_tsv_cs name -> reader_files false parent name = writer_files parent name.
 Proof. exact location_files_agree. Qed.
-Print Assumptions C05_tsv_location_files_agree.
+Print Assumptions C05_tsv_location_files_agree_before_b5f4533.
+
+Theorem C05_tsv_folder_files_agree_before_b5f4533 : forall (parent : list str) (name : str),
+  is_dot_tsv_ci name = false -> reader_files false parent name = writer_files parent name.
+Proof. exact folder_files_agree. Qed.
+Print Assumptions C05_tsv_folder_files_agree_before_b5f4533.
 
 Theorem C05_tsv_location_upper_suffix_refuted :
   exists parent name, reader_files false parent name <> writer_files parent name.
 Proof. exact location_upper_suffix_disagrees. Qed.
 Print Assumptions C05_tsv_location_upper_suffix_refuted.
-
-Theorem C05_tsv_location_files_agree_after_fix : forall (parent : list str) (name : str),
-  reader_files true parent name = writer_files parent name.
-Proof. exact location_files_agree_fixed. Qed.
-Print Assumptions C05_tsv_location_files_agree_after_fix.
 
 (* not the code: a save that leaves out the file of an empty table is not an overwrite (the reason the
    full file set matters; a change of save_dataframes in this direction is caught by the harness) *)
@@ -419,8 +430,10 @@ Print Assumptions C05_wiki_names_wrong_parent_refuted.
 
 (* AUDIT NOTE: C05_multi_library_refuses and C05_single_library_saves are the first line of process_schema unfolded
    (can_save = no comma in the library attribute); they carry no content beyond the transcription and are kept as
-   the interface lemma.  The content of the clause is C05_merged_libraries_refuse below (every construction of a
-   multi-library schema produces such a comma) together with its tie to the loader (clause multi-library-refuses). *)
+   the interface lemma.  C05_merged_libraries_refuse below adds only that merge_library (Model/Traversal.v: old ++ ',' ::
+   new) always yields a comma: it holds BY CONSTRUCTION OF THE MODEL.  What carries the clause is the tie to the real
+   loader -- which header the loader produces for each way of building a multi-library schema, and that every save entry
+   point then refuses -- and that tie is TESTED by the harness only (clause multi-library-refuses, kind mergelib). *)
 (* A schema merged from several libraries refuses to save, in every mode and whatever it holds;
    a single library never refuses. *)
 Theorem C05_multi_library_refuses : forall library ws m tags ucs secs,
@@ -429,7 +442,8 @@ Theorem C05_multi_library_refuses : forall library ws m tags ucs secs,
 Proof. exact multi_library_refuses. Qed.
 Print Assumptions C05_multi_library_refuses.
 
-(* ... and EVERY way of building a schema from two or more library files yields such a comma: the loader
+(* ... and, in the MODEL, every way of building a schema from two or more library files yields such a comma (this is
+   merge_library unfolded; that the real loader behaves like merge_library is tested, not proved): the loader
    appends ',' + name for each further file, also when the files belong to the same library (testlib_2.0.0 +
    testlib_3.0.0), so the refusal holds for all names, any number of files, every mode and content.  Tied to
    the code by the harness clause multi-library-refuses over all bundled legal merges and construction paths. *)
@@ -459,7 +473,7 @@ Example C05_nonvacuous_wiki :
   /\ row_free_of_reserved false ex_name ex_line = true /\ row_free_of_reserved true ex_name ex_line = true.
 Proof. exact ex_hyps. Qed.
 
-(* the premises of the section theorem hold on a real subtree of HED8.3.0 (Event, Sensory-event with its attributes
+(* ALL FOUR premises of the section theorem hold on a real subtree of HED8.3.0 (Event, Sensory-event with its attributes
    and description, two further nodes) and the conclusion is the identity there *)
 Example C05_nonvacuous_section :
   exists lines,
@@ -467,6 +481,7 @@ Example C05_nonvacuous_section :
     Forall (fun e => name_ok (last (ti_path e) []) = true /\ desc_ok (ti_desc e) = true /\ attr_ok (ti_attrs e) = true
                      /\ wiki_text_ok (format_tag_attributes no_dis (ti_attrs e)) = true) sec_items /\
     Forall2 (fun e line => row_free_of_reserved true (last (ti_path e) []) line = true) sec_items lines /\
+    paths_parents_first [] (map ti_path sec_items) /\
     read_tag_section true [] lines = Ok sec_items.
 Proof. exact ex_section. Qed.
 
